@@ -6,6 +6,8 @@ import (
 	"os"
 
 	"verifharness/vcodec"
+	"verifharness/vpair"
+	"verifharness/vsend"
 	"verifharness/vsession"
 	"verifharness/vstore"
 )
@@ -40,6 +42,10 @@ func main() {
 		os.Exit(vcodec.ValuesMain(os.Args[2:]))
 	case "schedule":
 		os.Exit(vcodec.ScheduleMain(os.Args[2:]))
+	case "pair":
+		os.Exit(vpair.Main(os.Args[2:]))
+	case "send":
+		os.Exit(vsend.Main(os.Args[2:]))
 	case "session":
 		os.Exit(vsession.Main(os.Args[2:]))
 	default:
